@@ -357,7 +357,7 @@ def prepare_attempts(ctx: Ctx) -> None:
         return np.linalg.norm(p[:, None, :] - p[None, :, :], axis=2)
     for _ in range(ctx.scale(4, 20)):
         n = rng.randrange(5, 9)
-        labels = [rng.choice(["C", "O"]) for _ in range(n)]
+        labels = (lambda sp: [rng.choice(sp) for _ in range(n)])(two_species(rng))
         a, b = cluster(rng, n), cluster(rng, n)
         perm = list(range(n))
         for sp in set(labels):
@@ -371,6 +371,14 @@ def prepare_attempts(ctx: Ctx) -> None:
             return
 
 
+SPECIES_PAIRS = [("Au", "Ag"), ("Au", "Ag"), ("C", "O"), ("C", "Cl"), ("N", "Ni"), ("S", "Si"), ("B", "Br")]
+
+
+def two_species(rng):
+    """a pair of element symbols; in some of them one symbol is the beginning of the other (C / Cl, N / Ni, ...)"""
+    return list(rng.choice(SPECIES_PAIRS))
+
+
 def prepare_check(ctx: Ctx, labels, stored, pairs) -> bool:
     from topsearch.data.coordinates import AtomicCoordinates
     from topsearch.data.kinetic_transition_network import KineticTransitionNetwork
@@ -381,12 +389,12 @@ def prepare_check(ctx: Ctx, labels, stored, pairs) -> bool:
     def dmat(x):
         p = np.asarray(x, dtype=float).reshape(-1, 3)
         return np.linalg.norm(p[:, None, :] - p[None, :, :], axis=2)
-    if True:
+    for out_level in (0, 1):               # the sampler's public output option must not change what is handed on
         ktn = KineticTransitionNetwork()
         for i, x in enumerate(stored):
             ktn.add_minimum(x.copy(), -10.0 + i)
         coords = AtomicCoordinates(labels, stored[0].copy())
-        ns = NetworkSampling(ktn, coords, None, None, None, make_sim(0.1))
+        ns = NetworkSampling(ktn, coords, None, None, None, make_sim(0.1), output_level=out_level)
         for pair in pairs:
             m1, m2, repeats, pm = ns.prepare_connection_attempt(coords, list(pair))
             rep = {"prepare": True, "labels": labels, "stored": [x.tolist() for x in stored], "pair": pair}
@@ -462,7 +470,7 @@ def predicates(ctx: Ctx) -> None:
         for _ in range(ctx.scale(14, 90) * deep):
             n = rng.randrange(3, 14)
             two = rng.random() < 0.5
-            labels = [rng.choice(["Au", "Ag"]) for _ in range(n)] if two else ["C"] * n
+            labels = (lambda sp: [rng.choice(sp) for _ in range(n)])(two_species(rng)) if two else ["C"] * n
             if rng.random() < 0.5:
                 # species symbols as they come out of a file / json / a numpy string array: equal strings, but every
                 # atom carries a string object of its own
@@ -492,7 +500,7 @@ def predicates(ctx: Ctx) -> None:
         # restart of the INVERTED structure, and distance / copy / permutation must still belong together
         for _ in range(ctx.scale(10, 40) * deep):
             n = rng.randrange(6, 11)
-            labels = [rng.choice(["Au", "Ag"]) for _ in range(n)]
+            labels = (lambda sp: [rng.choice(sp) for _ in range(n)])(two_species(rng))
             sim = make_sim(0.1, False, True)
             ctx.stats.case({"pred": "different-structures-inversion", "n": n}, True)
             check_alignment(ctx, sim, AtomicCoordinates(labels, cluster(rng, n).flatten().copy()), labels,
@@ -501,9 +509,10 @@ def predicates(ctx: Ctx) -> None:
         # from the centroid), inversion allowed, and a copy that matches only after inversion
         for _ in range(ctx.scale(8, 40) * deep):
             n = rng.randrange(5, 12)
-            labels = [rng.choice(["Au", "Ag"]) for _ in range(n)]
+            labels = (lambda sp: [rng.choice(sp) for _ in range(n)])(two_species(rng))
             if len(set(labels)) < 2:
-                labels[0], labels[1] = "Au", "Ag"
+                labels[0], labels[1] = ("Au", "Ag") if labels[0] in ("Au", "Ag") else two_species(rng)
+                labels = [labels[0] if l == labels[0] else labels[1] for l in labels]
             pts = cluster(rng, n)
             perm = list(range(n))
             for sp in set(labels):
@@ -522,7 +531,7 @@ def predicates(ctx: Ctx) -> None:
         # the deterministic path (furthest atoms + Kabsch + Hungarian) must itself recognise the copy
         for _ in range(ctx.scale(60, 300) * deep):
             n = rng.choice([18, 24, 30])
-            labels = [rng.choice(["Au", "Ag"]) for _ in range(n)] if rng.random() < 0.5 else (["C", "C", "O"] * 10)[:n]
+            labels = (lambda sp: [rng.choice(sp) for _ in range(n)])(two_species(rng)) if rng.random() < 0.5 else (["C", "C", "O"] * 10)[:n]
             if rng.random() < 0.5:
                 labels = [str(l.encode("ascii"), "ascii") for l in labels]
             pts = ball(rng, n) if rng.random() < 0.8 else cluster(rng, n, spread=3.0)
